@@ -26,6 +26,7 @@ at the top-level directory.
  * Purpose:		Sparse BLAS 2, using some dense BLAS 2 operations.
  */
 
+#include <ctype.h>
 #include "slu_sdefs.h"
 
 /*! \brief Solves one of the systems of equations A*x = b,   or   A'*x = b
@@ -101,6 +102,13 @@ sp_strsv(char *uplo, char *trans, char *diag, SuperMatrix *L,
     int_t luptr, istart, i, k, iptr;
     float *work;
     flops_t solve_ops;
+
+    /* The flags may be given in either case, as documented. */
+    char uplo1[2], trans1[2], diag1[2];
+    uplo1[0] = (char) toupper((unsigned char) uplo[0]);   uplo1[1] = '\0';
+    trans1[0] = (char) toupper((unsigned char) trans[0]); trans1[1] = '\0';
+    diag1[0] = (char) toupper((unsigned char) diag[0]);   diag1[1] = '\0';
+    uplo = uplo1; trans = trans1; diag = diag1;
 
     /* Test the input parameters */
     *info = 0;
@@ -384,6 +392,10 @@ sp_sgemv(char *trans, float alpha, SuperMatrix *A, float *x,
     int_t i, j;
     int notran;
 
+    /* TRANS may be given in either case, as documented. */
+    char trans1[2];
+    trans1[0] = (char) toupper((unsigned char) trans[0]); trans1[1] = '\0';
+    trans = trans1;
     notran = ( strncmp(trans, "N", 1)==0 || strncmp(trans, "n", 1)==0 );
     Astore = A->Store;
     Aval = Astore->nzval;
